@@ -202,11 +202,17 @@ class SimulatorWorkerThread(Thread):
                     try:
                         self._job.fire_timed(self._job.simulator_time,
                             Simulator.START_EVENT, None)
-                        self._job._run_state = RunState.STARTED
-                        self._job._run()
-                        self._job.fire_timed(self._job.simulator_time,
-                            Simulator.STOP_EVENT, None)
-                        self._job._run_state = RunState.STOPPED
+                        # cleanup() can be called from within the run (by a
+                        # listener, an event, or the WARN_AND_END strategy);
+                        # the state it has set must not be overwritten
+                        if not self._finalized:
+                            self._job._run_state = RunState.STARTED
+                            self._job._run()
+                        if not self._finalized:
+                            self._job.fire_timed(self._job.simulator_time,
+                                Simulator.STOP_EVENT, None)
+                        if not self._finalized:
+                            self._job._run_state = RunState.STOPPED
                     except Exception as e:
                         print("Simulator run interrupted by exception:")
                         print(str(e))
